@@ -160,6 +160,8 @@ def py_fire(pbc, calc, shot, rng_ft, step_ft, extra, time_step):
         return f'err:range {REASONS[e.reason]} ' + enc_rows(e.incomplete_trajectory)
     except ZeroDivisionError:
         return 'err:zerodiv'
+    except ValueError as ex:
+        return 'err:domain' if 'math domain' in str(ex) else 'err:value'
 
 
 def fire_line(pbc, calc, shot, rng_ft, step_ft, extra, time_step):
